@@ -228,3 +228,33 @@ def h_seq3(k1: int, k2: int, k3: int, m1: int, f1: int, n1: int, m2: int, f2: in
     ok, nt = _core([(k1, m1, f1, n1, 31, 7, flag), (k2, m2, f2, n2, 32, 8, flag),
                     (k3, m3, f3, n3, 33, 9, flag)])
     return hx.verdict(ok, nt)
+
+
+FN = [(f, n) for f in range(2) for n in range(4)]      # (field index, new-name index) pairs
+
+
+def _fn_ok(k, c):
+    if not (0 <= c <= 7):
+        return False
+    f, n = c // 4, c % 4
+    return _step_ok(k, 0, f, n)
+
+
+def h_seq4(k1: int, k2: int, k3: int, k4: int, m: int, c1: int, c2: int, c3: int, c4: int) -> bool:
+    """Sequences of four mutations on one model, for the kind patterns given by the partitions
+    (name reuse: change / rename away / add again / change or delete). c_i encodes the field and
+    the new-name index of step i.
+
+    pre: 0 <= m <= 1 and _fn_ok(k1, c1) and _fn_ok(k2, c2) and _fn_ok(k3, c3) and _fn_ok(k4, c4)
+    pre: hx.in_part(k1, k2, k3, k4)
+    pre: not hx.excluded(k1, k2, k3, k4, m, c1, c2, c3, c4)
+    post: _
+    """
+    steps = []
+    for k, c, ln, ini in ((k1, c1, 31, 7), (k2, c2, 32, 8), (k3, c3, 33, 9), (k4, c4, 34, 10)):
+        f, n = hx.pick(FN, c)
+        steps.append((k, m, f, n, ln, ini, False))
+    if _kf_region([(s[0], s[1], s[3]) for s in steps]):
+        return hx.verdict(True, False)
+    ok, nt = _core(steps)
+    return hx.verdict(ok, nt)
